@@ -42,6 +42,7 @@ type casRoot struct {
 }
 
 type casPlan struct {
+	ToggleFF   bool       `json:"toggle_fail_first_while_running,omitempty"` // the setting is changed after Start()
 	ResetCycle bool       `json:"reset_cycle,omitempty"` // configure, add a rule, Reset(), then add the real rules (multi-step API sequence)
 	Workers   int         `json:"workers"`
 	FailFirst bool        `json:"fail_first"`
@@ -75,6 +76,7 @@ func casGen(r *simrt.RNG, tier string) interface{} {
 	}
 	p.FailFirst = r.Bool(0.5)
 	p.ResetCycle = r.Bool(0.15)
+	p.ToggleFF = r.Bool(0.15)
 	p.NKinds = 2 + r.Intn(5)
 	// kinds form a DAG: a rule on kind k only adds children of kinds > k, so every
 	// cascade is finite (depth <= NKinds); some kinds have no rule (skipped events)
@@ -290,6 +292,11 @@ func casShrink(pi interface{}) []interface{} {
 		q.ResetCycle = false
 		out = append(out, q)
 	}
+	if p.ToggleFF {
+		q := clone()
+		q.ToggleFF = false
+		out = append(out, q)
+	}
 	return out
 }
 
@@ -456,6 +463,20 @@ func (st *casState) sampleHP(e *casEvent, m engine.Monitor) {
 		simrt.Fail("oracle:highest-priority", "hp/above-own",
 			"HighestPriority() = %d sampled inside an action of event %d whose own active monitor has priority %d", hp, e.id, own)
 	}
+	// whatever the interleaving: the reported number is the priority of a monitor of this
+	// cascade that was handed to the processor with a triggering event (a skipped child
+	// is never "activated by a triggering event", not even for a moment)
+	okPrio := false
+	for _, x := range st.events {
+		if x.root == e.root && len(st.byKind[x.kind]) > 0 && (x.addStart > 0 || x.parent == -1) && x.monPrio == hp {
+			okPrio = true
+			break
+		}
+	}
+	if !okPrio {
+		simrt.Fail("oracle:highest-priority", "hp/not-an-activated-priority",
+			"HighestPriority() = %d sampled in event %d, but no monitor of the cascade that was added with a triggering event has this priority (a skipped child's priority leaked)", hp, e.id)
+	}
 	// exact value when nobody else is in the middle of activating or finishing a
 	// monitor: one worker (the sampler) and no AddEvent call in progress
 	if st.p.Workers == 1 && st.inAdd[e.root] == 0 {
@@ -521,7 +542,7 @@ func casRun(p *casPlan, prop string) {
 	st := &casState{p: p, prop: prop, running: map[int]int{}, lastEnd: map[uint64]int64{}, byKind: map[int][]int{}, inAdd: map[int]int{}}
 	proc := engine.NewProcessor(p.Workers)
 	st.proc = proc
-	proc.SetFailOnFirstErrorInTriggerSequence(p.FailFirst)
+	proc.SetFailOnFirstErrorInTriggerSequence(p.FailFirst != p.ToggleFF)
 	if p.ResetCycle {
 		// a rule loaded before Reset() must be gone afterwards; the configuration stays
 		if err := proc.AddRule(&engine.Rule{Name: "before-reset", KindMatch: []string{"cas.*"}, ScopeMatch: []string{}, Priority: -10,
@@ -544,6 +565,10 @@ func casRun(p *casPlan, prop string) {
 		}
 	}
 	proc.Start()
+	if p.ToggleFF {
+		// changed on the running processor, before any event is added
+		proc.SetFailOnFirstErrorInTriggerSequence(p.FailFirst)
+	}
 
 	var wg simsync.WaitGroup
 	for ci, roots := range p.Clients {
